@@ -91,6 +91,21 @@ def synthetic_pools():
         p1 = eg.to_nx(eg.permute(c, tuple(reversed(range(n)))), SYN_V, SYN_E, node_ids=list(range(20, 20 + n)), node_order=list(reversed(range(n))))
         p2 = eg.to_nx(eg.permute(c, tuple((i + 1) % n for i in range(n))), SYN_V, SYN_E, node_ids=list(range(30, 30 + n)))
         pools.append([g, p1, p2, change_charge(g), g2, change_order(g2)])
+    # disconnected centres: two components of equal size; one item repeats a component where another has a different one
+    def two(x, y, base, flip=False):
+        G = nx.Graph()
+        for k, (el, ch) in enumerate([x, y]):
+            a, b = base + 2 * k, base + 2 * k + 1
+            if flip:
+                a, b = b, a
+            G.add_node(a, element="C", charge=0)
+            G.add_node(b, element=el, charge=ch)
+            G.add_edge(a, b, order=(2.0, 1.0))
+        return G
+
+    O, N, S = ("O", 0), ("N", 1), ("O", -1)
+    pools.append([two(O, O, 1), two(O, N, 11), two(O, O, 21, flip=True), two(N, O, 31), two(N, N, 41), two(O, S, 51)])
+    pools.append([two(O, N, 1), two(O, O, 11), two(N, N, 21), two(N, O, 31, flip=True), two(S, S, 41), two(O, O, 51)])
     return pools
 
 
@@ -111,7 +126,7 @@ def gen(tier, seed):
     wins = list(range(nwin)) if tier != "quick" else [(5 * k + seed) % nwin for k in range(20)]
     for w in sorted(set(wins)):
         yield w
-    for k in range(4):
+    for k in range(6):
         yield nwin + k
 
 
@@ -147,8 +162,16 @@ def check(widx):
     bc = BatchCluster()
     dead = set()
 
+    def sig_of(g, kind):
+        # isomorphism-invariant pre-grouping values of three shapes: a string, a tuple, a list that is not ascending
+        if kind == "tuple":
+            return (g.number_of_nodes(), g.number_of_edges())
+        if kind == "desc_list":
+            return sorted((d for _, d in g.degree()), reverse=True)
+        return elem_sig(g)
+
     def data_of(order, with_sig):
-        return [dict({"id": i, "gml": copy.deepcopy(items[i])}, **({"sig": elem_sig(items[i])} if with_sig else {})) for i in order]
+        return [dict({"id": i, "gml": copy.deepcopy(items[i])}, **({"sig": sig_of(items[i], with_sig)} if with_sig else {})) for i in order]
 
     def judge(tag, data, cfg):
         if tag in dead:
@@ -168,7 +191,7 @@ def check(widx):
 
     prev_templates = None
     for pi, order in enumerate(itertools.permutations(range(n))):
-        for with_sig in (False, True):
+        for with_sig in (False, "str") + (("tuple", "desc_list") if pi % 6 == 0 else ()):
             ak = "sig" if with_sig else None
             # one-shot clustering
             out = gc.fit(data_of(order, with_sig), rule_key="gml", attribute_key=ak)
@@ -202,6 +225,28 @@ def check(widx):
                         fails.append(Fail("incremental", f"arrival order {order} attr={ak}: item {i} -> class {c!r} (templates {sorted(before)})", "class of its isomorphic representative, else a fresh class", key_extra="incremental"))
                         dead.add("incremental")
                         break
+        if pi % 24 == 0 and "two_batches" not in dead:
+            # representatives produced by a first fit (no library given / empty library) classify a second batch, for every shape of the pre-grouping value
+            for kind in (False, "str", "tuple", "desc_list"):
+                for lib0 in (None, []):
+                    for bs in (None, 2):
+                        try:
+                            d1, t1 = bc.fit(data_of(order[:3], kind), lib0, rule_key="gml", attribute_key="sig" if kind else None, batch_size=bs)
+                            d2, t2 = bc.fit(data_of(order[3:], kind), t1, rule_key="gml", attribute_key="sig" if kind else None, batch_size=bs)
+                        except Exception as e:
+                            fails.append(Fail("two_batches", f"attr={kind} library={lib0} batch_size={bs} order={order}: {type(e).__name__}: {e}", "classes", key_extra="two_batches"))
+                            dead.add("two_batches")
+                            break
+                        ncalls += 2
+                        cl = {e["id"]: e.get("class") for e in list(d1) + list(d2)}
+                        if len(cl) != n or not all((cl[a] == cl[b]) == (want_cls[a] == want_cls[b]) for a in cl for b in cl):
+                            fails.append(Fail("two_batches", f"attr={kind} library={lib0} batch_size={bs} order={order}: classes {cl}", f"partition {sorted(map(sorted, want))}", key_extra="two_batches"))
+                            dead.add("two_batches")
+                            break
+                    if "two_batches" in dead:
+                        break
+                if "two_batches" in dead:
+                    break
         if pi % 24 == 0 and prev_templates and "templates" not in dead:
             # classification against given representatives: previous run, one dropped, ids shifted
             variants = {
